@@ -91,12 +91,15 @@ func (fr *Frame) Loop(h int) (*LoopInfo, bool) {
 		e := phi.Edges[i]
 		if blk.Dominates(p) { // back edge
 			add, ok := e.(*ssa.BinOp)
-			if !ok || add.Op != token.ADD || add.X != ssa.Value(phi) {
+			if !ok || (add.Op != token.ADD && add.Op != token.SUB) || add.X != ssa.Value(phi) {
 				return nil, false
 			}
 			c, ok := constInt(add.Y)
 			if !ok {
 				return nil, false
+			}
+			if add.Op == token.SUB {
+				c = -c
 			}
 			if li.Step != 0 && li.Step != c {
 				return nil, false
